@@ -776,7 +776,7 @@ func runNativeReplay(prop, dir string, cases []replayCase, overlay map[string][]
 			os.WriteFile(casePath, cj, 0o644)
 			cmd := exec.Command(bin, "-test.run", "^TestVerifReplay$", "-test.v", "-test.timeout", "5m")
 			cmd.Dir = filepath.Join(repoDir, dir)
-			cmd.Env = append(env, "VERIF_REPLAY="+casePath)
+			cmd.Env = append(append([]string(nil), env...), "VERIF_REPLAY="+casePath)
 			var outb bytes.Buffer
 			cmd.Stdout = &outb
 			cmd.Stderr = &outb
